@@ -569,6 +569,19 @@ func (p *Parser) checkHasValue(expr Expression, token lexer.Token) error {
 	return nil
 }
 
+// checkSingleValue makes sure the expression results in exactly one value (a call of a function with several return values doesn't).
+func (p *Parser) checkSingleValue(expr Expression, token lexer.Token) error {
+	err := p.checkHasValue(expr, token)
+
+	if err != nil {
+		return err
+	}
+	if expr.ValueType().DataType() == DATA_TYPE_MULTIPLE {
+		return p.expectedError("expression with a single value", token)
+	}
+	return nil
+}
+
 func (p *Parser) evaluateBuiltInFunction(tokenType lexer.TokenType, keyword string, minArgs int, maxArg int, ctx context, stmtCallout func(keywordToken lexer.Token, expressions []Expression) (Statement, error)) (Statement, error) {
 	keywordToken := p.eat()
 
@@ -1718,6 +1731,11 @@ func (p *Parser) evaluateSwitch(ctx context) (Statement, error) {
 		if err != nil {
 			return nil, err
 		}
+		err = p.checkSingleValue(switchExpr, exprToken) // Cases are compared with exactly one value.
+
+		if err != nil {
+			return nil, err
+		}
 	}
 	switchExprValueType := switchExpr.ValueType()
 
@@ -2105,7 +2123,13 @@ func (p *Parser) evaluateSingleExpression(ctx context) (Expression, error) {
 	// Handle groups.
 	case lexer.OPENING_ROUND_BRACKET:
 		p.eat() // Eat opening bracket.
+		childToken := p.peek()
 		child, err := p.evaluateExpression(ctx)
+
+		if err != nil {
+			return nil, err
+		}
+		err = p.checkSingleValue(child, childToken) // Brackets hold exactly one value.
 
 		if err != nil {
 			return nil, err
